@@ -28,19 +28,39 @@ type pass struct {
 	bruteLen int // the prefix pruning is cross-checked against the unpruned enumeration up to this length
 }
 
-var mid = []string{"a", "B", "f(", "1", "1.50", `"s"`, `"q\"\\"`, "true", "-", "+", "*", "^", "&", "=", "<", "(", ")", "[", "]", ".", ",", "=>", " "}
+// full is the vocabulary without FALSE and NULL (true stands for the keyword literals there); the
+// keywords pass combines all three with the symbols a keyword can stand next to.
+var full = without(vocab, "FALSE", "NULL")
+var keywords = []string{"a", "true", "FALSE", "NULL", "1", `"s"`, "f(", "(", ")", "[", "]", ".", ",", "&", "=", "-", " "}
 var core = []string{"a", "1", "-", "^", "*", "+", "<", "=", "&", "(", ")"}
+
+func without(all []string, drop ...string) []string {
+	var out []string
+	for _, t := range all {
+		keep := true
+		for _, d := range drop {
+			if t == d {
+				keep = false
+			}
+		}
+		if keep {
+			out = append(out, t)
+		}
+	}
+	return out
+}
 
 func passes(tier string) []pass {
 	if tier == "quick" {
 		return []pass{
-			{"full", vocab, 6, 4, 4},
+			{"full", full, 6, 5, 4},
+			{"keywords", keywords, 6, 5, 0},
 			{"operators", core, 8, 0, 0},
 		}
 	}
 	return []pass{
-		{"full", vocab, 6, 5, 5},
-		{"mid", mid, 7, 0, 0},
+		{"full", full, 7, 6, 5},
+		{"keywords", keywords, 7, 6, 0},
 		{"operators", core, 10, 0, 0},
 	}
 }
@@ -105,7 +125,12 @@ func (r *runner) visit(toks []int, s string) {
 	if len(toks) <= r.evalLen {
 		stages |= stageEval
 	}
+	t0 := time.Now()
 	vs, info := checkExpr(s, stages)
+	if d := time.Since(t0); d > 2*time.Second {
+		c.Inc("expressions_slower_than_2s")
+		c.Note(fmt.Sprintf("slow expression (%v): %s", d.Round(time.Second), s))
+	}
 	c.Inc("distinct_nontrivial")
 	if stages&stageEval != 0 {
 		c.Inc("expressions_with_templates_evaluated")
@@ -213,7 +238,7 @@ func run(c *mc.Ctx) {
 		}
 		r.evalLen = p.evalLen
 		shardDepth := 3
-		if p.maxLen >= 8 {
+		if p.maxLen >= 7 {
 			shardDepth = 4
 		}
 		w := &walker{maxLen: p.maxLen, shardDepth: shardDepth, mine: c.Mine, order: order, visit: r.visit, stop: c.Expired}
@@ -229,7 +254,7 @@ func run(c *mc.Ctx) {
 		}
 		c.Max("max_tokens:"+p.name, int64(p.maxLen))
 		if w.stopped {
-			c.Cap(fmt.Sprintf("time budget reached in pass %q (all token sequences of length <= %d over %d symbols): subtrees are visited in a fixed order and every subtree started before the cap was completed", p.name, p.maxLen, len(p.tokens)))
+			c.Cap(fmt.Sprintf("time budget reached in pass %q (all token sequences of length <= %d over %d symbols): subtrees are visited in a fixed order; the enumeration stopped part-way", p.name, p.maxLen, len(p.tokens)))
 			break
 		}
 		if p.bruteLen > 0 {
@@ -326,15 +351,15 @@ func init() {
 	mc.Register(&mc.Check{
 		ID:    "C11",
 		Level: "exploration",
-		Rule: "every sequence of vocabulary tokens (29 symbols: names a/B, call f(, numbers 1 and 1.50, three string literals incl. escapes and non-ASCII, true/FALSE/NULL, every operator, brackets, dot, comma, =>, and the space as a token of its own) up to 6 tokens is concatenated and parsed by goflow's parser; a prefix is abandoned only if the first syntax error is at a token no continuation can alter (cross-checked against the unpruned enumeration up to 4/5 tokens); further passes take a 23-symbol sub-vocabulary to 7 tokens (thorough) and an 11-symbol operator/parenthesis vocabulary to 8/10 tokens. " +
-			"evaluations = token sequences given to the parser; distinct_nontrivial = distinct sequences that parse (each is a different string; `=`+`>` is skipped as it equals the token `=>`), each run through: print, re-parse, print again, evaluation of both trees in 3 environments x 4 contexts binding a,b,f (object, array, number, text; function f), refactor.Template with a forced identity rewrite and with ContextRefRename(a->z) on `x @(e) y` compared structurally and by evaluation under the renamed context; for the shorter lengths also Evaluator.Template on original vs rewritten `x @(e) y`, `@(e)@(e)` and `hi @e y`.",
+		Rule: "every sequence of vocabulary tokens up to 6 (quick) / 7 (thorough) tokens is concatenated and parsed by goflow's parser; the vocabulary has 27 symbols: names a/B, call f(, numbers 1 and 1.50, three string literals incl. escapes and non-ASCII, true, every operator (- + * / ^ & = != < >, with <= and >= formed by adjacent tokens), ( ) [ ] . , => and the space as a token of its own. A prefix is abandoned only if the first syntax error is at a token no continuation can re-tokenize (cross-checked against the unpruned enumeration up to 4/5 tokens). Two further passes take a 17-symbol vocabulary with all keyword literals true/FALSE/NULL to the same length and an 11-symbol operator/parenthesis vocabulary to 8/10 tokens. " +
+			"evaluations = token sequences given to the parser; distinct_nontrivial = distinct sequences that parse (each is a different string; `=`+`>` is skipped as it equals the token `=>`; a sequence belonging to an earlier pass is not counted again), each run through: print, re-parse, print again, evaluation of both trees in 3 environments x 4 contexts binding a,b,f (object, array, number, text; function f), refactor.Template with a forced identity rewrite and with ContextRefRename(a->z) on `x @(e) y` compared by references, structure and evaluation under the renamed context; for the shorter lengths also Evaluator.Template on original vs rewritten `x @(e) y`, `@(e)@(e)` and `hi @e y`.",
 		Assumptions: []string{
 			"bounded: token vocabulary and sequence length as stated in the rule; contexts are the 4 stated shapes",
 			"'fails alike' is read as: both evaluations fail (messages are not compared, differing messages are counted)",
 			"values are compared by dynamic type, Render, Format and JSON; anonymous functions by calling them with 0..3 arguments",
-			"an expression containing both `^` and a number literal of more than 3 digits (1111 and longer, formed by adjacent `1` tokens) is printed, re-parsed and its rewrites are compared structurally, but it is not evaluated: such powers take minutes and gigabytes (C04's subject); the evidence counts them",
+			"an expression containing both `^` and a number literal >= 100 or of more than 3 digits (111, 1111, 1.501.. formed by adjacent tokens) is printed, re-parsed and its rewrites are compared structurally, but it is not evaluated: powers like x ^ 1111111 or 111 ^ 111 ^ 1.50 take minutes and gigabytes (C04's subject); the evidence counts them and any expression that took more than 2 s",
 			"a template that the scanner does not cut at the expression (string literal ending in an escaped backslash) is text for goflow: its rewrite is compared by evaluation only; the scanner itself is C12's subject",
-			"Evaluator.Template comparisons run on lengths <= 4 (quick) / <= 5 (thorough) of the full vocabulary; longer sequences are checked at expression level and through refactor.Template structurally",
+			"Evaluator.Template comparisons run on lengths <= 5 (quick) / <= 6 (thorough) of the 27- and 17-symbol vocabularies; longer sequences are checked at expression level and through refactor.Template structurally",
 		},
 		Run:    run,
 		Replay: replayFn,
